@@ -138,14 +138,15 @@ int32_t jls_track_repair_pointers(struct jls_core_track_s * track) {
         }
 
         if (descend || (0 == offset)) {
-            if (offset_descend && index_chunk.offset && summary_chunk.offset) {
+            if (index_chunk.offset && summary_chunk.offset) {
                 JLS_LOGI("descend signal_id %d track %d, level %d, offset %" PRIi64,
                          (int) signal_id, (int) track->track_type, (int) level, offset_descend);
                 index_chunk.hdr.item_next = 0;
                 summary_chunk.hdr.item_next = 0;
                 jls_core_update_chunk_header(core, &index_chunk);
                 jls_core_update_chunk_header(core, &summary_chunk);
-                offset = offset_descend;
+                // the last entry names no chunk (an omitted block): the pair stays, walk the lower level from its head
+                offset = offset_descend ? offset_descend : offsets[level - 1];
             } else {
                 JLS_LOGI("restart signal_id %d track %d, level %d, offset %" PRIi64,
                          (int) signal_id, (int) track->track_type, (int) level, offsets[level - 1]);
